@@ -40,7 +40,7 @@ CHECKS['C17'] = dict(level='exploration', technique='bounded-exhaustive enumerat
 PENDING = {}
 
 # drivers reviewed and released (a driver file that exists but is not listed here is not claimed yet)
-READY = ['C01', 'C04', 'C07', 'C08', 'C09', 'C10', 'C11', 'C12', 'C13', 'C14', 'C15', 'C16', 'C17', 'C19', 'C20', 'C21', 'C22', 'C25', 'C26', 'C32', 'C35', 'C36', 'C39', 'C06', 'C02', 'C23', 'C24', 'C27', 'C03', 'C05', 'C18', 'C29', 'C30', 'C31', 'C34', 'C28', 'C33']
+READY = ['C01', 'C04', 'C07', 'C08', 'C09', 'C10', 'C11', 'C12', 'C13', 'C14', 'C15', 'C16', 'C17', 'C19', 'C20', 'C21', 'C22', 'C25', 'C26', 'C32', 'C35', 'C36', 'C39', 'C06', 'C02', 'C23', 'C24', 'C27', 'C03', 'C05', 'C18', 'C29', 'C30', 'C31', 'C34', 'C28', 'C33', 'C37', 'C38']
 
 
 def main():
